@@ -43,6 +43,7 @@ mutual
     | PAIRN (n : Nat) | UNPAIRN (n : Nat) | GETN (n : Nat) | UPDATEN (n : Nat)
     | UNIT | PAIR | UNPAIR | CAR | CDR | SOME | NONE (t : Ty) | LEFT (t : Ty) | RIGHT (t : Ty)
     | NIL (t : Ty) | CONS | SIZE | EMPTY_MAP (k v : Ty)
+    | EDIV | LSL | LSR | SUB_MUTEZ
     | ADD | SUB | MUL | NEG | ABS | ISNAT | INT | COMPARE | EQ | NEQ | LT | GT | LE | GE
     | NOT | AND | OR | XOR
     | CONCAT | SLICE
